@@ -89,6 +89,7 @@ type FV struct {
 	curFnKey  string
 	inlineStack []string
 	locksetOK   int
+	topFrame    *Frame
 	sections    map[string]int // lock field -> critical sections entered by the top function on its receiver
 	subCtr      int
 	axioms      []axiomTerm
